@@ -290,10 +290,12 @@ def run(repo, tier):
     else:
         results = [_analyse(*t) for t in tasks]
     total = dict(boxes=0, proved=0, points=0, levels=0)
+    pending_errors = []
     for (root, ftype, name, _), res in zip(tasks, results):
         where = f"functional_algorithms/{REL}::{name}"
         if res["error"] and not res["refuted"]:
-            raise AnalysisError(res["error"])
+            pending_errors.append(res["error"])
+            continue
         for key, ok, detail in res["special"]:
             r.ob("R2.1", key, ok, detail, where)
         key = f"{name}[{ftype}] all inputs"
@@ -306,12 +308,15 @@ def run(repo, tier):
             total[k] += res["stats"][k]
         total["levels"] = max(total["levels"], res["stats"]["levels"])
         if res.get("err_error") and not res.get("err_refuted"):
-            raise AnalysisError(res["err_error"])
+            pending_errors.append(res["err_error"])
+            continue
         ekey = f"{name}[{ftype}] forward error"
         if res.get("err_refuted"):
             for lo_, info in res["err_refuted"]:
                 r.ob("R2.3", ekey + f" at {lo_}", False, info, where)
         elif res.get("err_ok"):
             r.ob("R2.3", ekey, True, res["err_ok"], where)
+    if pending_errors and not any(not o["ok"] for o in r.obligations):
+        raise AnalysisError(pending_errors[0])
     r.info("R2.2", f"boxes evaluated {total['boxes']}, proved {total['proved']} (of which single points {total['points']}), deepest refinement {total['levels']} levels; library-function slack {LIBM_SLACK} ulp; {jobs} worker process(es)")
     return r
